@@ -105,13 +105,13 @@ func init() {
 	})
 	register(&Prop{
 		ID:    "C18",
-		Rules: []func(*core.Ctx){RTopOnly, ROptStack, ROptSign},
+		Rules: []func(*core.Ctx){RTopOnly, ROptStack, ROptSign, ROptCache},
 		Explanation: "R-TOPONLY (compile-time option words are only handed on whole or masked with options that cannot be set inline, so every inline-settable option is read from where inline groups put it), R-OPTSTACK (push/pop discipline of the option stack in both passes: pop kinds per arm, and per-path balance against opened groups). " +
 			"That the three spellings produce the same tree is NOT decided.",
 	})
 	register(&Prop{
 		ID:    "C19",
-		Rules: []func(*core.Ctx){RCodec, REscAll, REscLetters, RUnits},
+		Rules: []func(*core.Ctx){RCodec, REscAll, REscLetters, RUnits, RRuneByte, RErrFallback},
 		Explanation: "R-CODEC: the writer's decision tree (escape) and the reader's switch (scanCharEscape) are evaluated from the source and compared: named escapes pairwise, hex digit counts from the value interval and padding on each path against the reader's fixed widths, bare-backslash escapes against the reader's default arm, and `meta` against the parser's character-class table. R-ESCALL: Escape cannot bypass escape(). R-UNITS: byte offsets never become rune positions (taint from strings.Index* / range-string keys to []rune indexes and the parser position). " +
 			"That ^Escape(s)$ matches exactly s needs the parser and engine and is NOT decided.",
 	})
